@@ -138,7 +138,9 @@ class MemoryModel(RDFModel):
         return z3.And(oi.is_some(e), st.content(CTSET, oi.get(e))[t])
 
     @classmethod
-    def RI(cls, st: StateView, self_z):
+    def RI(cls, st: StateView, self_z, except_t=None):
+        """except_t: a triple whose context info is being taken apart (inside Memory.remove's loop body): the two
+        R4 clauses are not claimed for it; everything else is."""
         oi = option_sort(z3.IntSort())
         ob = option_sort(z3.BoolSort())
         t = z3.Const("ri_t", TripleSort)
@@ -222,8 +224,9 @@ class MemoryModel(RDFModel):
         cl.append(z3.ForAll([t, k], cls.ct_has(st, self_z, t, k) == cls.Q(st, self_z, t, k)))
         # R4 a stored triple is in the union index and in at least one real context, and conversely
         kk = z3.Const("ri_kk", CKeySort)
-        cl.append(z3.ForAll([t], z3.Implies(sh, cls.Q(st, self_z, t, NONEKEY))))
-        cl.append(z3.ForAll([t], z3.Implies(sh, z3.Exists([kk], cls.Q(st, self_z, t, somekey(kk))))))
+        shx = sh if except_t is None else z3.And(sh, t != except_t)
+        cl.append(z3.ForAll([t], z3.Implies(shx, cls.Q(st, self_z, t, NONEKEY))))
+        cl.append(z3.ForAll([t], z3.Implies(shx, z3.Exists([kk], cls.Q(st, self_z, t, somekey(kk))))))
         # context_obj_map: a key maps to a context object whose key it is
         om = st.content(OBJMAP, omr)
         oc = option_sort(CtxSort)
@@ -258,8 +261,8 @@ class MemoryModel(RDFModel):
         return z3.And(*cl)
 
     @classmethod
-    def RIz(cls, st, self_z):
-        return z3.And(*cls.RI(st, self_z))
+    def RIz(cls, st, self_z, except_t=None):
+        return z3.And(*cls.RI(st, self_z, except_t))
 
     # ------------------------------------------------------------------ contracts
     def declare(self):
@@ -413,6 +416,20 @@ class MemoryModel(RDFModel):
                 return [("contexts-generator", z3.BoolVal(False))]
             return [("contexts-generator", z3.ForAll([x], cg.member(x) == spec))]
 
+        def tr_objmap(c):
+            # the only write: __ctx_to_str records the requested context object under its key
+            s_ = c.self.z
+            om0 = c.old.content(OBJMAP, M.F(c.old, "context_obj_map", s_))
+            om1 = c.new.content(OBJMAP, M.F(c.new, "context_obj_map", s_))
+            oc = option_sort(CtxSort)
+            ctxv = c.args["context"]
+            if ctxv is None:
+                return om1 == om0
+            if isinstance(ctxv.ty, TOpt):
+                return om1 == z3.If(oc.is_none(ctxv.z), om0,
+                                    z3.Store(om0, ckey_of(ctx_ident(oc.get(ctxv.z))), ctxv.z))
+            return om1 == z3.Store(om0, ckey_of(ctx_ident(ctxv.z)), oc.some(ctxv.z))
+
         def tr_wrap(it2, c, elem):
             # what a caller sees: (triple, generator of context objects)
             tz = it2.path.inject(TRIPLE, elem)
@@ -426,7 +443,7 @@ class MemoryModel(RDFModel):
         self.add(Contract("C01", REL, "Memory.triples",
                           [Param("triple_pattern", TTuple(OTERM, OTERM, OTERM, name="Pattern")),
                            Param("context", OCTX, default=None)],
-                          self_ty=mem, pre=pre_ri,
+                          self_ty=mem, pre=pre_ri, post=tr_objmap,
                           gen=GenSpec(TRIPLE, tr_member, distinct=True, abstract=tr_abstract, extra=tr_extra,
                                       wrap=tr_wrap),
                           modifies=[OBJMAP],
@@ -478,6 +495,121 @@ class MemoryModel(RDFModel):
                            "yield, and yields only triples that match and are present when yielded")
         ci.interference = TriplesInterference()
         self.add(ci, variant="interference")
+
+
+        # ---- remove(pattern, context): the loop consumes self.triples(...) lazily while deleting; the VC treats
+        # the iteration as over the entry-state result (assumption recorded below), everything else is proved:
+        # per-triple effect of the body (inner loop over the triple's context keys), RI, frame, Evolves.
+        def rm_sel(c, k):
+            ctxv = c.args["context"]
+            if ctxv is None:
+                return z3.BoolVal(True)
+            return k == keyz(c, ctxv)
+
+        def same_skeleton(a, b, s_):
+            """what no step of remove's loops touches: known contexts, the per-context set objects"""
+            return z3.And(
+                M.evolves(a, b, s_), b.alloc >= a.alloc,
+                b.content(ALLCTX, M.F(b, "all_contexts", s_)) == a.content(ALLCTX, M.F(a, "all_contexts", s_)),
+                b.content(CT, M.F(b, "contextTriples", s_)) == a.content(CT, M.F(a, "contextTriples", s_)))
+
+        def rm_outer_inv(lc):
+            c = lc.interp.callctx
+            st, s_ = lc.st, c.self.z
+            st0 = c.old
+            t = z3.Const("inv_t", TripleSort)
+            kk = z3.Const("inv_kk", CKeySort)
+            k = z3.Const("inv_k", OCK)
+            return z3.And(
+                M.RIz(st, s_),
+                z3.ForAll([t, kk], M.Q(st, s_, t, somekey(kk)) ==
+                          z3.And(M.Q(st0, s_, t, somekey(kk)), z3.Not(z3.And(lc.done[t], rm_sel(c, somekey(kk)))))),
+                z3.ForAll([t, k], z3.Implies(z3.Not(lc.done[t]), M.Q(st, s_, t, k) == M.Q(st0, s_, t, k))),
+                same_skeleton(st0, st, s_))
+
+        def rm_inner_inv(lc):
+            c = lc.interp.callctx
+            st, s_ = lc.st, c.self.z
+            fr = lc.outer[-1]
+            sa, t0 = fr["state"], fr["x"]
+            t = z3.Const("inv_t", TripleSort)
+            k = z3.Const("inv_k", OCK)
+            return z3.And(
+                M.RIz(st, s_, except_t=t0), M.spo_has(st, s_, t0),
+                z3.ForAll([k], M.ctx_has(st, s_, t0, k) ==
+                          z3.And(M.ctx_has(sa, s_, t0, k), z3.Not(z3.And(lc.done[k], rm_sel(c, k))))),
+                z3.ForAll([t, k], z3.Implies(t != t0, M.Q(st, s_, t, k) == M.Q(sa, s_, t, k))),
+                same_skeleton(sa, st, s_))
+
+        self.add(Contract("C01", REL, "Memory.__remove_triple_context",
+                          [Param("triple", TRIPLE), Param("ctx", OCKEY)], self_ty=mem, inline=True))
+
+        def rm_pre(c):
+            ga = c.old.field("Memory", "graph_aware", c.self.z)
+            return z3.And(M.RIz(c.old, c.self.z), ga)
+
+        def rm_post(c):
+            st0, st1, s_ = c.old, c.new, c.self.z
+            t = z3.Const("q_t", TripleSort)
+            kk = z3.Const("q_kk", CKeySort)
+            pat = c.args["triple_pattern"]
+            ctxv = c.args["context"]
+            k0 = keyz(c, ctxv)
+            eff = z3.ForAll([t, kk], M.Q(st1, s_, t, somekey(kk)) == z3.And(
+                M.Q(st0, s_, t, somekey(kk)),
+                z3.Not(z3.And(match_triple(pat, t), M.Q(st0, s_, t, k0), rm_sel(c, somekey(kk))))))
+            ac0 = st0.content(ALLCTX, M.F(st0, "all_contexts", s_))
+            ac1 = st1.content(ALLCTX, M.F(st1, "all_contexts", s_))
+            return [(f"RI[{i}]", f) for i, f in enumerate(M.RI(st1, s_))] + [
+                ("effect-on-Q", eff), ("known-contexts-unchanged", ac1 == ac0),
+                ("evolves", M.evolves(st0, st1, s_))]
+
+        def rm_pattern(path, interp):
+            # the pattern is only handed on to self.triples and compared with (None, None, None): its three
+            # components stay symbolic Optionals (no case split into the 8 shapes)
+            return tuple(SV(OTERM, z3.Const("arg_pat_" + n, OTERM.sort())) for n in ("s", "p", "o"))
+        rmc = Contract("C01", REL, "Memory.remove",
+                       [Param("triple_pattern", None, make=rm_pattern),
+                        Param("context", OCTX, default=None)],
+                       self_ty=mem, pre=rm_pre, post=rm_post, modifies=ALLHEAP, allocates=True,
+                       loops={0: LoopSpec(rm_outer_inv, modifies=[D3, TC, CTXD, CTSET], allocates=True,
+                                          var_types={"triple": "poison", "c": "poison", "subject": "poison",
+                                                     "predicate": "poison", "object_": "poison", "ctx": "poison",
+                                                     "ctxs": "poison"},
+                                          fingerprint="self.triples(triple_pattern, context=context)"),
+                              1: LoopSpec(rm_inner_inv, modifies=[TC, CTXD, CTSET], allocates=True,
+                                          var_types={"ctx": "poison"},
+                                          fingerprint="self.__get_context_for_triple(triple)")},
+                       note="Q'(t, k) = Q(t, k) minus the matching triples of the requested context (of every "
+                            "context when None); the union index follows by RI; known contexts unchanged; RI and "
+                            "Evolves preserved")
+        self.add(rmc)
+        self.contracts[("Memory", "remove")].split_bits = 4
+        self.contracts[("Memory", "remove")].enum_split = 6
+        self.assumptions.append(
+            "Memory.remove consumes self.triples(...) lazily while its loop body deletes: the loop is verified as an "
+            "iteration over the matching triples of the state at loop entry, each once (the contract of "
+            "Memory.triples).  Justification, argued not mechanised: triples() copies every container it walks before "
+            "yielding (proved: interference variant, no live container iterated across a yield) and the body "
+            "deletes only entries of the triple just yielded, so later snapshots lose no pending triple")
+
+
+        # ---- remove_graph(graph): remove((None, None, None), graph) by its contract, then forget the graph
+        def rg_post(c):
+            st0, st1, s_ = c.old, c.new, c.self.z
+            t = z3.Const("q_t", TripleSort)
+            kk = z3.Const("q_kk", CKeySort)
+            k0 = ckey_of(ctx_ident(c.args["graph"].z))
+            eff = z3.ForAll([t, kk], M.Q(st1, s_, t, somekey(kk)) == z3.And(M.Q(st0, s_, t, somekey(kk)), kk != k0))
+            ac0 = st0.content(ALLCTX, M.F(st0, "all_contexts", s_))
+            ac1 = st1.content(ALLCTX, M.F(st1, "all_contexts", s_))
+            return [(f"RI[{i}]", f) for i, f in enumerate(M.RI(st1, s_))] + [
+                ("effect-on-Q", eff), ("graph-forgotten-only", ac1 == z3.Store(ac0, c.args["graph"].z, False)),
+                ("evolves", M.evolves(st0, st1, s_))]
+        self.add(Contract("C02", REL, "Memory.remove_graph", [Param("graph", CTX)], self_ty=mem,
+                          pre=rm_pre, post=rg_post, modifies=ALLHEAP, allocates=True,
+                          note="empties that graph (its triples leave the union index when no other graph holds them) "
+                               "and forgets it; every other graph and every other known name unchanged; RI preserved"))
 
         # ---- __len__(context)
         def len_post(c):
